@@ -903,6 +903,32 @@ impl<'a, 'b, 'ast> Visit<'ast> for Collector<'a, 'b> {
                     self.edits.push((sp.start, sp.end, text));
                 }
             }
+            Expr::MethodCall(c) if rw.for_iter && c.method == "max_by" && c.args.len() == 1 && matches!(&c.args[0], Expr::Closure(cl) if cl.inputs.len() == 2) => {
+                // R30 (option for_iter=1): `E.max_by(|a, b| C)` -> the fold Iterator::max_by performs (the LAST of several maximal elements wins):
+                //   `{ let mut it = E.into_iter(); let mut best = None; loop { match it.next() { Some(x) => { best = match best { None => Some(x),
+                //       Some(b0) => { let a = &b0; let b = &x; match C { Ordering::Greater => Some(b0), _ => Some(x) } } }; } None => break } } best }`
+                if let Expr::Closure(cl) = &c.args[0] {
+                    let idx = rw.loop_idx.get();
+                    rw.loop_idx.set(idx + 1);
+                    let a = e.span().byte_range().start;
+                    let b = cl.body.span().byte_range().start;
+                    rw.loop_headers.borrow_mut().push(rw.src[a..b].split_whitespace().collect::<Vec<_>>().join(" "));
+                    let it = rw.render_expr(&c.receiver);
+                    let p1 = rw.src[cl.inputs[0].span().byte_range()].trim().to_string();
+                    let p2 = rw.src[cl.inputs[1].span().byte_range()].trim().to_string();
+                    let body = rw.render_expr(&cl.body);
+                    let inv = rw.section(&format!("loop {idx}")).map(|t| mark(t)).unwrap_or_default();
+                    let before = rw.section(&format!("loop {idx} before")).map(|t| format!("proof {{ //@p\n{}\n}} //@p\n", mark(t))).unwrap_or_default();
+                    let end = rw.section(&format!("loop {idx} end")).map(|t| format!("proof {{ //@p\n{}\n}} //@p\n", mark(t))).unwrap_or_default();
+                    let after = rw.section(&format!("loop {idx} after")).map(|t| format!("proof {{ //@p\n{}\n}} //@p\n", mark(t))).unwrap_or_default();
+                    let elem = rw.section(&format!("loop {idx} elem")).map(|t| format!(": Option<{}>", t.trim())).unwrap_or_default();
+                    let braw = rw.section(&format!("loop {idx} begin-raw")).map(|t| format!("{}\n", mark(t))).unwrap_or_default();
+                    let text = format!("({{ let mut __it{idx} = ({it}).into_iter(); let mut __best{idx}{elem} = None;\n{before}loop\n{inv}\n{{ match __it{idx}.next() {{ Some(__x{idx}) => {{ {braw}__best{idx} = match __best{idx} {{ None => Some(__x{idx}), Some(__b{idx}) => {{ let {p1} = &__b{idx}; let {p2} = &__x{idx}; match {body} {{ core::cmp::Ordering::Greater => Some(__b{idx}), _ => Some(__x{idx}) }} }} }};\n{end} }} None => {{ break; }} }} }}\n{after} __best{idx} }})");
+                    rw.count("R30");
+                    let sp = e.span().byte_range();
+                    self.edits.push((sp.start, sp.end, text));
+                }
+            }
             Expr::MethodCall(c) if rw.for_iter && c.method == "min" && c.args.is_empty() && matches!(&*c.receiver, Expr::MethodCall(m) if m.method == "filter_map" && m.args.len() == 1 && matches!(&m.args[0], Expr::Closure(cl) if cl.inputs.len() == 1)) => {
                 // R28 (option for_iter=1): `E.filter_map(|P| B).min()` -> the loop keeping the first minimal value (Iterator::min)
                 if let Expr::MethodCall(m) = &*c.receiver { if let Expr::Closure(cl) = &m.args[0] {
